@@ -302,6 +302,15 @@ def _load(db, chk):
     chk.ob("C01.R7-event-id-index", "load = parse, then align/trim, then index", order == ["parse_traces", "align_and_filter_trace"] and si and si[0].lineno > max(c.lineno for c in H.calls(lt) if isinstance(c.func, ast.Attribute) and c.func.attr == "align_and_filter_trace"),
            tm.loc(lt), found=order, accepted=["parse_traces", "align_and_filter_trace", "set_index"])
     ut = db.mod("hta.utils.utils")
-    nf = ut.func("normalize_gpu_stream_numbers._normalize_stream_number")
-    rets = [ast.unparse(n.value) for n in ast.walk(nf) if isinstance(n, ast.Return)]
-    chk.ob("C01.R7-stream-sentinel", "stream normaliser: int(x) with fallback literal -1 (the sentinel)", rets == ["int(stream_number)", "-1"], ut.loc(nf), found=rets, accepted=["int(stream_number)", "-1"])
+    # the per-value normaliser is found by ROLE: the function reachable from normalize_gpu_stream_numbers (a closure of it or a private helper) that converts with int(..) under a try
+    outer_n = ut.func("normalize_gpu_stream_numbers")
+    cands = [g_ for q_, g_ in ut.functions.items() if q_.startswith("normalize_gpu_stream_numbers.")] + [g_ for g_ in H.with_private_callees(ut, outer_n, depth=2) if g_ is not outer_n]
+    cands = [g_ for g_ in cands if any(isinstance(n, ast.Try) for n in ast.walk(g_)) and any(isinstance(n, ast.Call) and H.name_id(n.func) == "int" for n in ast.walk(g_))]
+    cands = [g_ for i_, g_ in enumerate(cands) if not any(g_ is h_ for h_ in cands[:i_])]
+    if len(cands) == 1:
+        nf = cands[0]
+        prm = (H.param_names(nf) or ["?"])[0]
+        rets = [ast.unparse(n.value) for n in ast.walk(nf) if isinstance(n, ast.Return)]
+        chk.ob("C01.R7-stream-sentinel", "stream normaliser: int(x) with fallback literal -1 (the sentinel)", rets == [f"int({prm})", "-1"], ut.loc(nf), found=rets, accepted=["int(<value>)", "-1"])
+    else:
+        chk.ob("C01.R7-stream-sentinel", "stream normaliser: int(x) with fallback literal -1 (the sentinel)", None, ut.loc(outer_n), found=f"{len(cands)} candidate function(s)", accepted=["int(<value>)", "-1"])
